@@ -110,9 +110,19 @@ def check(R, F):
             ws = [(b0, st0)]
         R.require(ok, 'counts', W + name + '|increment', c.where(), '%s += %s (checked)' % (field, kind), '%s updates %s with %s' % (name, field, paths.show_operand(c, ws[0][1]['rv']['op']) if ws else None))
     ar = F.fn(W + 'add_rrset')
-    incs = [(b, st) for b, bl in enumerate(ar.blocks) if not bl['cleanup'] for st in bl['stmts'] if st['k'] == 'assign' and not st['lhs']['p'] and st['rv']['k'] == 'use' and paths.show_operand(ar, st['rv']['op']) == 'Add(var:usize,1_usize)']
-    rr = calls_in(ar, W + 'add_rr')
-    ok = len(incs) == 1 and len(rr) == 1 and any(re.match(r'^discr\(Result<T, E>::branch\(Writer::add_rr\(.*\)\)\) in \[0\]$', x) for x in paths.dom_guards(ar, incs[0][0]))
+    # the one `+ 1` of add_rrset (in its body, or in the closure of a fold / try_for_each that replaced the loop) is
+    # executed only after add_rr returned Ok on that path
+    from qv.rulelib import succeeded_before
+    incs = []
+    for g in [ar] + list(F.closures_of(ar.gpath)):
+        for b, bl in enumerate(g.blocks):
+            if bl['cleanup']:
+                continue
+            for st in bl['stmts']:
+                if st['k'] == 'assign' and st['rv']['k'] == 'bin' and st['rv']['op'] in ('Add', 'AddWithOverflow') and const_int(st['rv']['b']) == 1 and 'usize' in (st['rv']['b'].get('ty') or ''):
+                    incs.append((g, b))
+    rr = [(g, b) for g in [ar] + list(F.closures_of(ar.gpath)) for b, t in calls_in(g, W + 'add_rr')]
+    ok = len(incs) == 1 and len(rr) == 1 and incs[0][0] is rr[0][0] and succeeded_before(incs[0][0], incs[0][1], lambda t: callee_name(t) == W + 'add_rr')
     R.require(ok, 'counts', W + 'add_rrset|counts-successes', ar.where(), 'n_added += 1 after each successful add_rr', 'add_rrset does not count exactly the successfully written records')
     fin = F.fn(FIN)
     wu = calls_in(fin, W + 'write_u16')
